@@ -84,9 +84,9 @@ func StylingOp(r *run.Rng, o *Opts) rec.Op {
 	}
 	switch r.Intn(10) {
 	case 0:
-		return rec.Op{K: rec.KSetCSel, Sel: uint8(r.Pick(0, 1, 62, 63, r.Intn(64), r.Intn(64)))}
+		return rec.Op{K: rec.KSetCSel, Sel: uint8(r.Pick(0, 1, 62, 63, r.Intn(64), r.Intn(64), r.Intn(256), 64+63, 128, 255))}
 	case 1:
-		return rec.Op{K: rec.KSetNSel, Sel: uint8(r.Pick(0, 1, 62, 63, r.Intn(64), r.Intn(64)))}
+		return rec.Op{K: rec.KSetNSel, Sel: uint8(r.Pick(0, 1, 62, 63, r.Intn(64), r.Intn(64), r.Intn(256), 64+63, 128, 255))}
 	case 2, 3, 4, 5:
 		adj, incr := adjIncr()
 		return rec.Op{K: rec.KSetCReg, Adj: adj, Incr: incr, Col: Color(r)}
